@@ -21,10 +21,22 @@ import (
 	"time"
 
 	"gvharness/hx"
+
+	rt "github.com/arnodel/golua/runtime"
 )
 
+// total time this process may still spend waiting for goroutines to terminate: when goroutines
+// leak on every case (a broken end/Close) each wait would cost the full 1.5 s
+var settleBudget = 20 * time.Second
+
 func settle(target int) int {
-	deadline := time.Now().Add(1500 * time.Millisecond)
+	start := time.Now()
+	defer func() { settleBudget -= time.Since(start) }()
+	wait := 1500 * time.Millisecond
+	if settleBudget < wait {
+		wait = 20 * time.Millisecond
+	}
+	deadline := time.Now().Add(wait)
 	n := runtime.NumGoroutine()
 	for n > target && time.Now().Before(deadline) {
 		runtime.Gosched()
@@ -53,6 +65,18 @@ func main() {
 		for _, f := range strings.Fields(line) {
 			if strings.HasPrefix(f, "exp=") {
 				exp, _ = strconv.Atoi(f[4:])
+			}
+			if f == "rooth=1" {
+				// install a message handler in the runtime's ROOT context the way the golua CLI does
+				// (Runtime.PushContext, no owning thread): it must only see errors that reach the top of
+				// the main thread, never an error inside a coroutine (those are delivered to the resumer).
+				lc.Setup = func(r *rt.Runtime) {
+					h := rt.NewGoFunction(func(t *rt.Thread, c *rt.GoCont) (rt.Cont, error) {
+						return c.PushingNext1(t.Runtime, rt.StringValue("ROOTHANDLER")), nil
+					}, "roothandler", 1, false)
+					h.SolemnlyDeclareCompliance(rt.ComplyCpuSafe | rt.ComplyMemSafe | rt.ComplyTimeSafe | rt.ComplyIoSafe)
+					r.PushContext(rt.RuntimeContextDef{MessageHandler: h})
+				}
 			}
 		}
 		runtime.Gosched()
